@@ -538,6 +538,9 @@ inline void forkedCases(long n, const std::function<void(long)> &fn, int timeout
       continue;
     }
     if (WIFEXITED(status) && WEXITSTATUS(status) == 0 && sh->abandoned) {
+      // a child gave up after recording its violations: counts (heavily) towards the budget of
+      // abnormal cases, so that a thoroughly broken tree does not take hours
+      abnormal += 10;
       k = at + 1;
       continue;
     }
